@@ -1,10 +1,12 @@
 //! registry of property checks
 use crate::runner::PropDef;
 
+pub mod c03;
+pub mod c11;
 pub mod c20;
 
 pub fn all() -> Vec<&'static PropDef> {
-    vec![&c20::DEF]
+    vec![&c03::DEF, &c11::DEF, &c20::DEF]
 }
 
 pub fn find(id: &str) -> Option<&'static PropDef> {
